@@ -28,27 +28,39 @@ def _instrument():
     oc = ordered_covering
     up, down, apply_ = oc._refine_upcheck, oc._refine_downcheck, oc._Merge.apply
 
-    def upcheck(merge, min_goodness):
-        new, changed = up(merge, min_goodness)
-        _count("upcheck:" + ("emptied" if changed and not new.entries else
-                             "removed-entries" if changed else "unchanged"))
-        return new, changed
+    # the wrappers pass their arguments through untouched, whatever the signatures are
+    def upcheck(*args, **kw):
+        res = up(*args, **kw)
+        try:
+            new, changed = res
+            _count("upcheck:" + ("emptied" if changed and not new.entries else
+                                 "removed-entries" if changed else "unchanged"))
+        except Exception:                                          # noqa
+            pass
+        return res
 
-    def downcheck(merge, aliases, min_goodness):
-        new = down(merge, aliases, min_goodness)
-        _count("downcheck:" + ("unchanged" if new.entries == merge.entries else
-                               "emptied" if not new.entries else "removed-entries"))
-        if any(len(v) > 1 for v in aliases.values()):
-            _count("downcheck:with-aliases")
+    def downcheck(*args, **kw):
+        new = down(*args, **kw)
+        try:
+            merge, aliases = args[0], args[1]
+            _count("downcheck:" + ("unchanged" if new.entries == merge.entries else
+                                   "emptied" if not new.entries else "removed-entries"))
+            if any(len(v) > 1 for v in aliases.values()):
+                _count("downcheck:with-aliases")
+        except Exception:                                          # noqa
+            pass
         return new
 
-    def apply(self, aliases):
-        _count("merge-applied")
-        if self.insertion_index < len(self.routing_table) and \
-                oc._get_generality(self.routing_table[self.insertion_index].key,
-                                   self.routing_table[self.insertion_index].mask) == self.generality:
-            _count("merge-applied:above-equal-generality")
-        return apply_(self, aliases)
+    def apply(self, *args, **kw):
+        try:
+            _count("merge-applied")
+            if self.insertion_index < len(self.routing_table) and \
+                    oc._get_generality(self.routing_table[self.insertion_index].key,
+                                       self.routing_table[self.insertion_index].mask) == self.generality:
+                _count("merge-applied:above-equal-generality")
+        except Exception:                                          # noqa
+            pass
+        return apply_(self, *args, **kw)
     oc._refine_upcheck, oc._refine_downcheck, oc._Merge.apply = upcheck, downcheck, apply
 
 
@@ -102,13 +114,27 @@ def run_case(c):
     op = c["op"]
     if op == "events":
         return ["events", dict(EVENTS)]
+    if op == "new":
+        # RoutingTableEntry.__new__: members given in any order with repeats; sources possibly omitted
+        def go():
+            route = [Routes(r) for r in c["route"]]
+            if c["sources"] is None:
+                e = RoutingTableEntry(route, c["key"], c["mask"])
+            else:
+                e = RoutingTableEntry(route, c["key"], c["mask"], [None if x is None else Routes(x) for x in c["sources"]])
+            if type(e.route) is not frozenset or type(e.sources) is not set:
+                return ["ok", ["types", type(e.route).__name__, type(e.sources).__name__]]
+            return ["ok", [bits(e.route), e.key, e.mask, bits(e.sources)]]
+        return guarded(go)
+    METHODS = {1: remove_default_routes.minimise, 2: ordered_covering.minimise}
     if op == "mts":
         tables = OrderedDict((tuple(chip), [entry(e) for e in t]) for chip, t in c["tables"])
         tg = c["targets"]
         if isinstance(tg, list):
             tg = dict((tuple(chip), v) for chip, v in tg)
+        kw = {} if c.get("methods") is None else dict(methods=tuple(METHODS[i] for i in c["methods"]))
         r = guarded(lambda: ["ok", [[list(chip), out_table(t)] for chip, t in
-                                    minimise_tables(tables, tg).items()]])
+                                    minimise_tables(tables, tg, **kw).items()]])
         if r[0] == "fail":
             r.append({repr(list(chip)): sizes(t) for chip, t in tables.items()})
         return r
@@ -139,8 +165,11 @@ def run_case(c):
         r = guarded(lambda: ["ok", out_table(remove_default_routes.minimise(table, target))])
     elif op == "oc_min":
         r = guarded(lambda: ["ok", out_table(ordered_covering.minimise(table, target))])
+    elif op == "rde_nc":
+        r = guarded(lambda: ["ok", out_table(remove_default_routes.minimise(table, target, check_for_aliases=False))])
     elif op == "mt":
-        r = guarded(lambda: ["ok", out_table(minimise_table(table, target))])
+        kw = {} if c.get("methods") is None else dict(methods=[METHODS[i] for i in c["methods"]])
+        r = guarded(lambda: ["ok", out_table(minimise_table(table, target, **kw))])
     elif op == "oc":
         # two rounds of ordered_covering, the second on the first result plus new entries with the
         # aliases dictionary of the first
